@@ -138,7 +138,7 @@ func (e *Engine) callNamed(st *State, fn *ssa.Function, args []Value, bind []Val
 		(fn.Parent() != nil && rootPkg(fn) == e.pkg)
 	if inPkg && len(fn.Blocks) > 0 {
 		if name != e.curFn && e.contracts != nil {
-			if ct := e.contracts.lookup(name); ct != nil && ct.Modular {
+			if ct := e.contracts.lookup(name); ct != nil && ct.Modular && e.modularHere(ct) {
 				e.callByContract(st, fn, ct, args, depth, pos, k)
 				return
 			}
@@ -653,6 +653,23 @@ func (e *Engine) typeAssert(st *State, fr *Frame, in *ssa.TypeAssert) bool {
 	case VNil:
 		okT = TFalse
 	case VIface:
+		if id, isOpaque := opaqueErrID(a); isOpaque {
+			// error of symbolic class (result of a modular call): the assertion succeeds iff it is of that class
+			tn := sanitize(in.AssertedType.String())
+			if n, ok := in.AssertedType.(*types.Named); ok {
+				tn = n.Obj().Name()
+			}
+			okT = st.declare(fmt.Sprintf("err.%d.is.%s", id, tn), SBool)
+			if typeIsPkg(in.AssertedType, "github.com/mattn/go-sqlite3", "Error") {
+				// A-BUSY: whatever SQLite error it is, it is not BUSY/LOCKED
+				if dv, ok := e.dbError(st).(VIface); ok {
+					val = dv.V
+					break
+				}
+			}
+			val = e.havoc(st, in.AssertedType, "asserted")
+			break
+		}
 		if a.Typ == nil {
 			okT = TFalse
 			break
@@ -802,4 +819,21 @@ func (e *Engine) entryValue(st *State, obj *MapObj, key string) Value {
 		name = fmt.Sprintf("map%d", e.nextID())
 	}
 	return e.symbolicOf(st, obj.Typ.Elem(), name+"["+key+"]", 0)
+}
+
+// modularHere: is the callee's contract used instead of its body while verifying the current function?
+func (e *Engine) modularHere(ct *Contract) bool {
+	if len(ct.ModularIn) == 0 {
+		return true
+	}
+	cur := e.contracts.lookup(e.curFn)
+	if cur == nil {
+		return false
+	}
+	for _, n := range ct.ModularIn {
+		if n == cur.Short || strings.HasSuffix(cur.Short, "."+n) {
+			return true
+		}
+	}
+	return false
 }
